@@ -5,10 +5,50 @@ history correspondence and checked directly on the implementation by the oracle 
 (checks/treecommon.py, harness/src/tree_oracle.rs).
 Load half ("a load rejected for a syntax error, a merge conflict or overlapping paths"): the C11-load oracle of
 checks/c09.py (agent-c09's loader / merge streams), called through `extra_check`."""
-import treecommon
+import os, json
+import lib, treecommon
+from lib import VERIF
+
+REPLAYS = ["C11-move-noname-after-detach", "C11-move-refwrite-after-detach", "C11-setref-after-dest"]
+
+
+def _known_replays(ctx, avh, avm):
+    """the three Known11 classes of coq/Tree/Fail.v on the implementation: each replay script (lenient load of a document
+    with an empty / invalid SHORT-NAME, then the failing call) must (a) run identically on the implementation and on the
+    extracted Coq model, (b) still show the partial effect (oracle line) - then it is printed as KNOWN-FINDING; when the
+    library is repaired the oracle line disappears and the entry has to be turned into a fixed one."""
+    known = {e["key"]: e for e in lib.load_known("C11")}
+    tw = treecommon.TW
+    os.makedirs(tw, exist_ok=True)
+    for key in REPLAYS:
+        fp = os.path.join(VERIF, "findings", key + ".json")
+        if not os.path.exists(fp) or key not in known:
+            ctx.oblige("replay:%s present" % key, False, "missing findings/%s.json or known_findings entry" % key)
+            continue
+        obj = json.load(open(fp))
+        sp = os.path.join(tw, "c11_%s.txt" % key)
+        open(sp, "w").write("\n".join(obj["script"]) + "\n")
+        _, o1, _ = lib.run([avh, "tree", "run", treecommon.DUMP, sp], cwd=tw, timeout=300)
+        _, o2, _ = lib.run([avm, treecommon.DUMP, sp], cwd=tw, timeout=300)
+        a = [l for l in o1.split("\n") if l.startswith("S ")]
+        b = [l for l in o2.split("\n") if l.startswith("S ")]
+        ctx.oblige("correspondence:known-class-replay(%s: implementation vs extracted Coq model)" % key, a == b and len(a) == 1,
+                   "impl %s model %s" % (a, b))
+        _, o3, _ = lib.run([avh, "tree", "oracle", treecommon.DUMP, sp], cwd=tw, timeout=300)
+        fails = [treecommon.parse_fail(l) for l in o3.split("\n") if l.startswith("FAIL C11 ")]
+        hit = [f for f in fails if treecommon.known_match(known[key], f)]
+        other = [f for f in fails if not any(treecommon.known_match(e, f) for e in known.values() if e.get("status") == "known")]
+        ctx.oblige("oracle:known-class-replay(%s: no C11 failure outside the known classes)" % key, not other,
+                   "; ".join(f["raw"] for f in other)[:400])
+        if hit and known[key].get("status") == "known":
+            ctx.known(known[key]["what"])
+        elif known[key].get("status") == "known":
+            ctx.notes.append("known finding %s no longer reproduces on the implementation" % key)
 
 
 def _load_half(ctx, avh, avm, tier, seed):
+    if avh and avm:
+        _known_replays(ctx, avh, avm)
     try:
         import c09
     except Exception as e:  # the load half lives in another work package
